@@ -18,7 +18,8 @@ RULE = ("scenario = server history of <=12 frames (text, binary, fragmented, pin
         "ping / pong with payload); each callback fires at the virtual instant the last byte of its frame was delivered "
         "(callbacks take zero virtual time); a raising callback is immediately followed by on_error(that exception).  "
         "non-trivial = at least one burst of >=2 frames, a fragmented message or a raising callback; distinct = (frame "
-        "kinds per burst, callback subset, raising subset, transport)")
+        "kinds per burst, callback subset, raising subset, transport); the serving connection may be reached through a redirect "
+        "from a URL of the other scheme (ws:// redirected to wss:// and the reverse)")
 ASSUMPTIONS = ["on_cont_message is never set (it switches the connection to per-fragment delivery)",
                "on_close / return value / errors not caused by callbacks are C14's subject"]
 EVENT_CBS = ("on_open", "on_message", "on_data", "on_ping", "on_pong")
@@ -78,7 +79,11 @@ def gen(rng):
             cbs[name] = {"do": "raise", "nth": rng.choice((None, 1, 2))}
     tls = rng.random() < 0.3
     sizes = [] if tls or rng.random() < 0.4 else [rng.choice((1, 2, 3, 5, 9, 100)) for _ in range(rng.randrange(1, 4))]
-    return {"items": items, "end": end, "callbacks": cbs, "tls": tls, "sizes": sizes, "seed": rng.randrange(1 << 30)}
+    sc = {"items": items, "end": end, "callbacks": cbs, "tls": tls, "sizes": sizes, "seed": rng.randrange(1 << 30)}
+    if rng.random() < 0.12:
+        # the application's URL has the other scheme and is redirected to the serving connection
+        sc["cross_redirect"] = True
+    return sc
 
 
 def plan(tier, seed):
@@ -102,6 +107,9 @@ def expand(item, seed):
             for tls in (False, True):
                 yield {"items": REF_ITEMS, "end": {"t": 3 * S, "kind": "close", "body_hex": "03e8"}, "callbacks": cbs,
                        "tls": tls, "sizes": [] if tls else [2], "seed": 1}
+                if mask % 5 == 3:
+                    yield {"items": REF_ITEMS, "end": {"t": 3 * S, "kind": "close", "body_hex": "03e8"}, "callbacks": cbs,
+                           "tls": tls, "sizes": [] if tls else [2], "seed": 1, "cross_redirect": True}
                 if mask % 7 == 0:
                     rcbs = {n: ({"do": "raise"} if n != "on_error" else {"do": "ok"}) for n in cbs}
                     yield {"items": REF_ITEMS, "end": {"t": 3 * S, "kind": "eof", "body_hex": ""}, "callbacks": rcbs,
@@ -166,12 +174,12 @@ def run(sc, choices=None):
         raise InvalidScenario(str(e))
     link = {"sizes": [max(1, int(x)) for x in sc.get("sizes", [])]} if sc.get("sizes") and not tls else {}
     asc = {"conns": [{"script": script, "on_ping": {"mode": "never"}, "on_close": {"mode": "reply"}}], "callbacks": cbs,
-           "run": {"tls": tls}, "link": link, "seed": sc.get("seed", 1), "time_cap_s": 600}
+           "run": {"tls": tls, "cross_redirect": bool(sc.get("cross_redirect"))}, "link": link, "seed": sc.get("seed", 1), "time_cap_s": 600}
     out = run_app(asc, choices)
     w = out["world"]
-    res.absorb(w, exclude_kinds=("send", "recv", "deliver", "recv_call") if tls else ())
+    res.absorb(w, exclude_kinds=("send", "recv", "deliver", "recv_call") if tls or sc.get("cross_redirect") else ())
     run = out["runs"][0]
-    ctx = "tls" if tls else "plain"
+    ctx = ("tls" if tls else "plain") + ("/redirected_from_other_scheme" if sc.get("cross_redirect") else "")
     if run.aborted:
         res.violate("run_forever_hangs", ctx, f"aborted: {run.aborted}")
         return _finish(res, sc, allspec, cbs, tls)
@@ -180,7 +188,7 @@ def run(sc, choices=None):
     # delivery time of every stream offset (plain transport): from the 'deliver' events of the connection
     deliver_at = []
     if not tls and w.net.sockets:
-        fd = w.net.sockets[0].fd
+        fd = w.net.sockets[-1].fd
         tot = 0
         for e in w.k.log:
             if e[3] == "deliver" and e[4] == fd:
@@ -269,7 +277,7 @@ def _s(x):
 def _finish(res, sc, allspec, cbs, tls):
     bursts = [tuple((f["fin"], f["op"]) for f in it["frames"]) for it in sc["items"]]
     raising = tuple(sorted(n for n, b in cbs.items() if b and b.get("do") == "raise"))
-    res.sig = repr((bursts, tuple(sorted(cbs)), raising, tls, sc["end"]["kind"]))
+    res.sig = repr((bursts, tuple(sorted(cbs)), raising, tls, sc["end"]["kind"], bool(sc.get("cross_redirect"))))
     res.nontrivial = any(len(b) > 1 for b in bursts) or bool(raising) or any(not f.fin for f, _, _ in allspec)
     if any(len(b) > 1 for b in bursts):
         res.probes["burst"] = 1
@@ -280,4 +288,4 @@ def _finish(res, sc, allspec, cbs, tls):
 
 def sample_view(sc, r):
     return {"bursts": [{"t": it["t"], "frames": [[f["fin"], f["op"], len(f["hex"]) // 2] for f in it["frames"]]} for it in sc["items"]],
-            "end": sc["end"], "callbacks": sc["callbacks"], "tls": sc.get("tls"), "chunk_sizes": sc.get("sizes")}
+            "end": sc["end"], "callbacks": sc["callbacks"], "tls": sc.get("tls"), "chunk_sizes": sc.get("sizes"), "cross_redirect": sc.get("cross_redirect")}
